@@ -48,3 +48,8 @@ def nat_of_str(s):
 def items_of(it):
     """the (remaining) items of an iterator or sequence, as a list"""
     return list(it)
+
+
+def keys_subset(m1, m2):
+    """every key of the dict m1 is a key of m2"""
+    return all(k in m2 for k in m1)
